@@ -6,7 +6,7 @@ across calls (C16-CTR); verifier mismatch and missing password are refused (C16-
 AE-1/AE-2 distinction reaches the checksum layer intact (C16-CRC = C04-ARGS/AE2SRC)."""
 import re
 
-from engine.expr import Ex, norm, show, walk, alts
+from engine.expr import Ex, norm, show, walk, alts, canon
 from engine.intervals import dominating_facts
 from engine.mir import AnchorLost, callee_matches
 from engine.paths import paths, decided, called, outcome
@@ -62,13 +62,25 @@ def const_rules(facts, rep):
         hk = norm(ex.operand(hm[0][1]["args"][0], (hm[0][0], None)))
         vr = norm(ex.operand(ne[0][1]["args"][1], (ne[0][0], None)))
         v0 = norm(ex.operand(ne[0][1]["args"][0], (ne[0][0], None)))
-        def rng(e):
-            return dict(e[2][1][3]) if e[0] == "call" and e[1].endswith("Index::index") and e[2][1][0] == "agg" else {}
-        r1, r2, r3 = rng(ck), rng(hk), rng(vr)
-        good = show(r1.get("start", ("x",))) == "0" and show(r1.get("end", ("x",))) == "AesMode::key_length(self.aes_mode)" and \
-            show(r2.get("start", ("x",))) == "AesMode::key_length(self.aes_mode)" and show(r2.get("end", ("x",))) in ("Mul(AesMode::key_length(self.aes_mode), 2)", "Mul(2, AesMode::key_length(self.aes_mode))") and \
-            "end" not in r3 and show(r3.get("start", ("x",))).startswith("Sub(Add(Mul(2, AesMode::key_length(self.aes_mode)), 2), 2)") and \
-            show(v0) == "vec::from_elem(0, 2)"
+        # where in the derived buffer each piece lies, as (offset, length), evaluated for every key length the mode table can return
+        from engine.panics import slice_span, subst, const_return_summaries, finite_calls
+        from engine.intervals import Intervals
+        summ = const_return_summaries(facts)
+        spans = [slice_span(x) for x in (ck, hk, vr)]
+        good = all(sp is not None for sp in spans) and show(v0) == "vec::from_elem(0, 2)"
+        if good:
+            buf = norm(ex.operand(pb[0][1]["args"][3], (pb[0][0], None))) if pb else None
+            good = all(sp[0] == buf or canon(sp[0]) == canon(buf) for sp in spans)
+            fc = finite_calls([x for sp in spans for x in sp[1:]] + [buf], summ)
+            ks = [c for c in fc if c[0] == "call" and c[1].endswith("key_length")]
+            good = good and len(ks) == 1 and tuple(fc[ks[0]]) == (16, 24, 32)
+            if good:
+                for kv in fc[ks[0]]:
+                    m = {ks[0]: ("const", "usize", kv)}
+                    iv = Intervals(summ)
+                    got = [(iv.range_of(subst(sp[1], m), "usize"), iv.range_of(subst(sp[2], m), "usize")) for sp in spans]
+                    want = [((0, 0), (kv, kv)), ((kv, kv), (kv, kv)), ((2 * kv, 2 * kv), (2, 2))]
+                    good = good and got == want
     ok &= rep.check(good, rule, "key-layout", where(va, va.span), "derived = cipher key [0..k] | MAC key [k..2k] | 2-byte verifier; verifier compared with the 2 bytes read after the salt",
                     "derived key material is split differently")
     # mode <-> cipher type pairing
@@ -240,13 +252,27 @@ def open_rules(facts, rep):
         ok &= rep.check(good, rule, "valid-reader-init", where(va, s["span"]), "data_remaining = data_length, not finalized", "validated reader starts with remaining=%s" % show(dr))
     nw = facts.one(r"^aes::AesReader::<R>::new$")
     exn = Ex(nw)
-    cs = calls_matching(nw, r"checked_sub$")
-    good = len(cs) == 1
-    if good:
-        a0 = norm(exn.operand(cs[0][1]["args"][0], (cs[0][0], None)))
-        a1 = norm(exn.operand(cs[0][1]["args"][1], (cs[0][0], None)))
-        t = tokens(a1)
-        good = a0 == ("arg", 3, "compressed_size") and {"2", "10", "salt_length()"} <= t
+    CS = ("arg", 3, "compressed_size")
+    NEED = {"2", "10", "salt_length()"}
+    ags = list(aggregates(nw, r"aes::AesReader$"))
+    good = len(ags) >= 1
+    for bi, si, s_, fl in ags:
+        dl = norm(exn.operand(fl["data_length"], (bi, si)))
+        this = False
+        inner = dl[1] if dl[0] == "ok" else None
+        if inner is not None and inner[0] == "call" and re.search(r"Option::<T>::ok_or(_else)?$|Option::ok_or(_else)?$", inner[1]):
+            inner = inner[2][0]
+        if inner is not None and inner[0] == "call" and inner[1].endswith("checked_sub"):
+            # checked form: compressed_size.checked_sub(overhead) with the None case turned into an error
+            a0, a1 = inner[2][0], inner[2][1]
+            this = a0 == CS and NEED <= tokens(a1)
+        elif dl[0] == "bin" and dl[1] == "Sub" and dl[2] == CS and NEED <= tokens(dl[3]):
+            # explicit form: `if compressed_size < overhead { return Err } ... compressed_size - overhead`
+            want = show(canon(dl[3]))
+            for x in dominating_facts(nw, exn, bi):
+                if (x[0] == "Ge" and x[1] == CS and show(canon(x[2])) == want) or (x[0] == "Le" and x[2] == CS and show(canon(x[1])) == want):
+                    this = True
+        good = good and this
     ok &= rep.check(good, rule, "data-length", where(nw, nw.span), "data length = compressed size - (salt + 2 + 10), checked", "AES data length is not compressed_size.checked_sub(salt + verifier + MAC)")
     rep.floor(rule, 6)
     return ok
